@@ -24,6 +24,10 @@ CHECKS = {
                 technique="explicit-state search on the real emulator over the product of the TLC thread/CPU graph and the per-thread value state of one quantity group at a time; displayed thread and CPU rows compared with a reference evaluation after every accepted event (clock steps 1 and 0)",
                 text="For each group of per-thread quantities (nOS-V subsystem/idle/task ids, Nanos6 subsystem/thread type/idle/task ids, NODES, TAMPI, OpenMP, MPI function, kernel context switch, ovni flush, user marks) every interleaving state of two threads over the loom's CPUs (incl. virtual, oversubscribed) with every value state is reached, every thread/affinity/value event is probed, and the thread row must show the value exactly while the state satisfies the tracking mode; the CPU row must show the unique running thread's value, else nothing (or the idle default).",
                 note="Trusted: tracking-mode table of DESIGN A.3 (cross-checked with the .pcf labels), golden enter values; value-event legality is soft (C08); value depth 1 (2 for two groups in the thorough tier); numeric task ids/type gids are learned from the thread row then required everywhere."),
+    "C07": dict(level="model_checking", engine="E4 task_server + E3 emu_server", ref="DESIGN.md 5 (C07)",
+                technique="explicit-state search: (A) task.c/body.c driven directly, BFS over a reference body machine for all flag combinations with complete module-state comparison after every accepted operation; (B) nOS-V and Nanos6 task events on the real emulator with verdict and displayed rows compared in every reached state",
+                text="(A) For every flag combination (parallel/resurrect/pause/relax-nesting) of three tasks, every operation (execute/end/pause/resume) x 2 threads x 3 tasks x 2 body ids is probed in every state reached within the depth bound; legality must agree with the reference (iff) and the module's bodies and stacks must equal the reference state. (B) On the real emulator: two normal and one parallel nOS-V task / two Nanos6 tasks on two threads, every task event with every task/body id incl. illegal and unknown ones, duplicate and unknown creates, one neutral region; accepted iff body machine and region-stack rule allow; thread and CPU rows show task id, type, body id, app id, rank exactly while a body runs.",
+                note="Trusted: DESIGN A.4 reference; body.c is #included by the harness to dump private state; depth bounds 5/7 (module) and 5/8 (end to end); task-type gid learned from the thread row."),
     "C08": dict(level="model_checking", engine="E3 emu_server", ref="DESIGN.md 5 (C08)",
                 technique="explicit-state search on the real emulator: state = stacks of open regions of a thread (depth <= 2), every documented event of the model probed in every state against a stack reference; golden value/label table; binding pass through the real ovniemu",
                 text="For each of the eight models every nesting of depth <= 2 of its documented enter events is reached on the real emulator and every documented argument-less event is probed there: the matching leave must be accepted, every other leave refused, every non-re-entering enter accepted, and thread and CPU rows must show the documented value of the innermost open region. Also: required thread state (6 states x in/out of CPU), lint on open regions for all enter events, a depth-512 path with the 513th push refused, and .pcf labels.",
@@ -62,10 +66,12 @@ def main():
                   "baseline_off_cmd": "cmake --build /repo/_build && ctest --test-dir /repo/_build -j8 --timeout 900",
                   "source_commits": [], "add_only": True},
         "engines": [
-            {"name": "E3 emu_server", "path": "harness/emu_server.c", "serves_properties": ["C04", "C05", "C06", "C08"],
+            {"name": "E3 emu_server", "path": "harness/emu_server.c", "serves_properties": ["C04", "C05", "C06", "C07", "C08"],
              "kind_free_text": "the unmodified emulator as a fork-checkpoint exploration server; Python BFS over (model state, implementation hash)"},
             {"name": "E1 rt_driver", "path": "harness/rt_driver.c", "serves_properties": ["C01", "C02"],
              "kind_free_text": "libovni compiled into the driver from the working tree (OVNI_MAX_EV_BUF overridable), interposed clock/write/abort; Python enumerates programs over buffer fill levels"},
+            {"name": "E4 task_server", "path": "harness/task_server.c", "serves_properties": ["C07"],
+             "kind_free_text": "task.c/body.c driven in-process, one history per line, full private state dumped"},
             {"name": "TLC", "path": "tla/", "serves_properties": ["C04", "C05", "C06"],
              "kind_free_text": "TLA+ reference models; complete labelled state graph dumped and replayed against the implementation"},
         ],
